@@ -139,7 +139,11 @@ class CodeBuilder:
             )
         self.dialect = dialect
         self.default_dialect = default_dialect
-        self.allow_postponed_evaluation = allow_postponed_evaluation
+        # a dialect specific method is compiled on demand at call time,
+        # so it must never be replaced with a lazy stub again
+        self.allow_postponed_evaluation = (
+            allow_postponed_evaluation and dialect is None
+        )
         self.format_name = format_name
         self.decoder = decoder
         self.encoder = encoder
